@@ -308,6 +308,11 @@ func (t *tlopen) handle(cs *connState) message {
 	}
 	defer ref.DecRef()
 
+	// Open is a read operation as far as the path is concerned, so several
+	// Tlopen on one fid are not kept apart by the path lock.
+	ref.openMu.Lock()
+	defer ref.openMu.Unlock()
+
 	var (
 		qid    QID
 		ioUnit uint32
